@@ -147,6 +147,13 @@ def bind_records(it):
     import ast
     for key, rec in TYPES.records.items():
         modname, cname = key.split('.')
+        if modname == 'harness':
+            # value types of the verification harness (e.g. data sets handed out by the
+            # application oracle): plain records, no repository class behind them
+            from .values import ClassVal
+            if rec.cls is None:
+                rec.cls = ClassVal(cname, [it.builtins['object']], {}, 'harness')
+            continue
         mod = it.modules.get('pynetdicom2.' + modname)
         if mod is None or cname not in mod.attrs:
             raise CheckerError('record %s: class not found in the current tree' % key)
